@@ -225,7 +225,9 @@ def snap_smt(I, ref, old_ref):
         raise Unsupported("snap(ref, old): heap reference expected")
     if isinstance(old_ref, SRef):
         return SRef(ref.cls, ref.id, old_ref.heap)
-    h = getattr(old_ref, "heap_snapshot", None) or getattr(old_ref, "heap", None)
+    h = getattr(old_ref, "heap_snapshot", None)
+    if h is None:
+        h = getattr(old_ref, "heap", None)
     if h is None:
         raise Unsupported("snap(ref, old): the second argument is not a pre-state value")
     return SRef(ref.cls, ref.id, h)
@@ -252,3 +254,26 @@ def ref_smt(I, clsname, ident):
 
 
 REG.spec("ref", ref_smt, lambda c, i: i, "the object of heap class c with identity i, in the current heap")
+
+
+def idof_smt(I, ref):
+    from .sym import SRef, SInt
+
+    if not isinstance(ref, SRef):
+        raise Unsupported("idof(ref): heap reference expected")
+    return SInt(ref.id)
+
+
+REG.spec("idof", idof_smt, lambda r: id(r), "the identity of a heap object (the integer that ghost sequences of objects hold)")
+
+
+def allocated_smt(I, ref):
+    from .sym import SRef, SBool
+    from .models import heap_limit
+
+    if not isinstance(ref, SRef):
+        raise Unsupported("allocated(ref): heap reference expected")
+    return SBool(z3.And(ref.id >= 1, ref.id < heap_limit(I)))
+
+
+REG.spec("allocated", allocated_smt, lambda r: r is not None, "r is an object that exists in the state the clause speaks about (not one created later)")
